@@ -16,6 +16,16 @@ open AsynqModel
 /-- dispatch one case to the model of its mode -/
 def handleCase (mode : String) (id : Nat) (hdr body : List Sexp) : String :=
   match mode with
+  | "ctxraise" =>
+    -- a context hook (pause / resume) raises while its task is suspended / continued: the task fails with that very
+    -- exception (a handler in the awaiting task gets it), nothing else escapes, the scheduler is clean, the next
+    -- computation works.  Expected outcome as a function of the case: handler ↦ "handled", else "raised-boom".
+    match hdr, body with
+    | [_, _, .atom h, _], [.list [.atom "result", .atom out, clean, nxt]] =>
+      let expected := if h == "1" then "handled" else "raised-boom"
+      if out == expected && clean.nat? == some 1 && nxt.nat? == some 1 then s!"R {id} CORR=ok SPEC=ok SPECM=ok | "
+      else s!"R {id} CORR=diff SPEC=fail:context-hook-error-{out}-clean{clean}-next{nxt} SPECM=ok | expected {expected}, clean scheduler, next computation ok"
+    | _, _ => s!"R {id} CORR=diff SPEC=ok SPECM=ok | unparsable ctxraise case"
   | "futures" => Drv.Futures.handle id hdr body
   | "core" => Drv.Core.handle id hdr body
   | "threads" => Drv.Threads.handle id hdr body
